@@ -138,7 +138,17 @@ def first_point(pd):
     return min(ts) if ts else 0
 
 
+_PICKUP = {}   # id(part description) -> pickup, for the duration of one evaluation
+
+
 def pickup_of(pd):
+    k = id(pd)
+    if k not in _PICKUP:
+        _PICKUP[k] = (pd, pickup_of1(pd))   # the description is kept so that its id cannot be reused
+    return _PICKUP[k][1]
+
+
+def pickup_of1(pd):
     ms = pd.get("measures") or []
     fp = first_point(pd)
     m1 = next((m for m in ms if m[0] == fp), None)
@@ -525,7 +535,7 @@ def cases(rng, tier):
     # raw MIDI files for the two readers: zero-velocity note ons, re-struck and orphan notes, several channels
     for _ in range(40 if tier == "quick" else 1500):
         yield {"k": "raw", "seed": rng.randrange(2 ** 31), "mode": rng.choice(MODES)}
-    n = 100 if tier == "quick" else (1500 if tier == "thorough" else 1200)
+    n = 100 if tier == "quick" else 1200
     for i in range(n):
         sd = gen_score(random.Random(rng.randrange(2 ** 62)))
         if tier == "quick":
@@ -902,6 +912,7 @@ def eval_score(d):
 
     ev = Eval()
     sd = d["score"]
+    _PICKUP.clear()
     score, parts = build(sd)
     # group identity as the exporter sees it
     tops, gidx = [], []
@@ -917,52 +928,69 @@ def eval_score(d):
     stoks = " ".join(src_tokens(p, g) for p, g in zip(score.parts, gidx))
     n_sound = sum(len(sounding_desc(pd)) for pd in sd["parts"])
     rows = score_rows(score)
-    for cfg in d["configs"]:
+    org_of = {}
+    for ci, cfg in enumerate(d["configs"]):
         mode, anac, minppq, vel = cfg
         tag = "mode=%d %s min=%d vel=%d" % (mode, anac, minppq, vel)
+        args = "%d %s %d %d %d" % (mode, anac, minppq, vel, len(score.parts))
         buf = io.BytesIO()
         _, e = call(save_score_midi, score, buf, part_voice_assign_mode=mode, velocity=vel, anacrusis_behavior=anac,
                     minimum_ppq=minppq)
-        ev.requests.append("exp %d %s %d %d %d %s" % (mode, anac, minppq, vel, len(score.parts), ptoks))
-        ev.requests.append("exps %d %s %d %d %d %s" % (mode, anac, minppq, vel, len(score.parts), stoks))
         if e:
-            ev.impl += ["err", "err"]
+            ev.requests.append("exp %s %s" % (args, ptoks))
+            ev.impl.append("err")
             if n_sound > 0:
                 ev.oracle.append("export raised: [%s] save_score_midi raised %s: %s" % (tag, type(e).__name__, str(e)[:120]))
             continue
         buf.seek(0)
         mf = mido.MidiFile(file=buf)
         tracks = file_tracks(mf)
-        ev.impl += ["%d|%s|%s" % (
+        exp_text = "%d|%s|%s" % (
             mf.ticks_per_beat,
             W.f_list(lambda tr: W.f_list(lambda x: "%d:%s" % (x[0], msg_text(x[2])), tr), tracks),
-            W.f_list(lambda tr: W.f_list(lambda x: "%d:%s" % (x[1], msg_text(x[2])), tr), tracks))] * 2
+            W.f_list(lambda tr: W.f_list(lambda x: "%d:%s" % (x[1], msg_text(x[2])), tr), tracks))
         ttoks = W.lst(lambda tr: W.lst(lambda x: "%d %s" % (x[1], msg_token(x[2])), tr), tracks)
         # ---- performance reader: raw ticks
         perf, e2 = call(load_performance_midi, mf)
-        ev.requests.append("perf " + ttoks)
         pnotes = None
         if e2:
-            ev.impl.append("err")
+            ev.requests += ["exp %s %s" % (args, ptoks), "perf " + ttoks]
+            ev.impl += [exp_text, "err"]
             ev.oracle.append("perf raised: [%s] load_performance_midi raised %s" % (tag, type(e2).__name__))
         else:
             # the `track` field of the note dicts is renumbered in set order by
             # Performance.sanitize_track_numbers (C06's subject): use the part's own track attribute
             pnotes = [dict(n, track=pp.track) for pp in perf.performedparts for n in pp.notes]
-            ev.impl.append(W.f_list(lambda i: W.f_list(
-                lambda n: W.f_tuple(*[W.f_int(n[f]) for f in ("note_on_tick", "note_off_tick", "midi_pitch", "channel", "velocity")]),
-                sorted((n for n in pnotes if n["track"] == i),
-                       key=lambda n: (n["note_on_tick"], n["midi_pitch"], n["note_off_tick"], n["channel"], n["velocity"]))), range(len(tracks))))
-        # ---- the vocabulary of the theorems against the real file: what each track must hold
-        if pnotes is not None:
-            ev.requests.append("spec %d %s %d %d %d %s" % (mode, anac, minppq, vel, len(score.parts), ptoks))
-            ev.impl.append(spec_text(sd, order, rows, anac, tracks, pnotes))
+            # ---- the model of the exporter, and the vocabulary of the theorems against the real file: what each
+            # track must hold (one request: the parts are sent once)
+            ev.requests.append("expspec %s %s" % (args, ptoks))
+            ev.impl.append(exp_text + "#" + spec_text(sd, order, rows, anac, tracks, pnotes))
+        if ci == 0:
+            # the same export from the note objects (tie chains merged by the model); independent of the configuration
+            ev.requests.append("exps %s %s" % (args, stoks))
+            ev.impl.append(exp_text)
+        perf_text = None if pnotes is None else W.f_list(lambda i: W.f_list(
+            lambda n: W.f_tuple(*[W.f_int(n[f]) for f in ("note_on_tick", "note_off_tick", "midi_pitch", "channel", "velocity")]),
+            sorted((n for n in pnotes if n["track"] == i),
+                   key=lambda n: (n["note_on_tick"], n["midi_pitch"], n["note_off_tick"], n["channel"], n["velocity"]))), range(len(tracks)))
+        if anac not in org_of:
+            org_of[anac] = origin_of({"parts": [sd["parts"][i] for i in order]}, anac)
+        org = org_of[anac]
+
+        def readers(flags, texts):
+            # one request for all readers of the file (the tracks are sent once)
+            fl = flags | (1 if perf_text is not None else 0)
+            if fl:
+                ev.requests.append("rt %d %s %d %d %s" % (fl, W.q(org), mode, mf.ticks_per_beat, ttoks))
+                ev.impl.append("#".join(([perf_text] if perf_text is not None else []) + texts))
+
         # ---- score reader, same mode
         buf.seek(0)
         zero_num = any(m.type == "time_signature" and m.numerator == 0 for tr in tracks for _, _, m in tr)
         if zero_num:
             # add_measures never terminates on a 0/x signature: do not call the importer
             sc2, e3 = None, None
+            readers(0, [])
             ev.oracle.append("tsc-zero-numerator: [%s] a measure shorter than one beat is written as time signature 0/x; "
                              "load_score_midi does not terminate on the file" % tag)
             ev.oracle += oracle(sd, order, cfg, mf, tracks, pnotes, None, tag)
@@ -972,19 +1000,17 @@ def eval_score(d):
             # parts with different metres merged into one track (modes 1, 2, 4): the track states two
             # different time signatures at one tick, which no score has; create_part/add_measures may reject
             # it (C11's subject).  Outside the property's domain: neither compared nor judged.
+            readers(0, [])
             ev.oracle += oracle(sd, order, cfg, mf, tracks, pnotes, None, tag)
             continue
-        ev.requests.append("imp %d %d %s" % (mode, mf.ticks_per_beat, ttoks))
         if e3:
-            ev.impl.append("err")
+            readers(2, ["err"])
             ev.oracle.append("import raised: [%s] load_score_midi raised %s: %s" % (tag, type(e3).__name__, str(e3)[:120]))
         else:
-            ev.impl.append(import_text(sc2))
-            # the imported notes in musical time (`importedRows` of score_roundtrip)
-            org = origin_of({"parts": [sd["parts"][i] for i in order]}, anac)
-            ev.requests.append("rows %s %d %d %s" % (W.q(org), mode, mf.ticks_per_beat, ttoks))
-            ev.impl.append(rows_text((Fraction(n.start.t, mf.ticks_per_beat) + org, Fraction(n.duration_tied, mf.ticks_per_beat),
-                                      int(n.midi_pitch)) for p2 in sc2.parts for n in p2.notes_tied))
+            # the imported parts, and their notes in musical time (`importedRows` of score_roundtrip)
+            readers(6, [import_text(sc2),
+                        rows_text((Fraction(n.start.t, mf.ticks_per_beat) + org, Fraction(n.duration_tied, mf.ticks_per_beat),
+                                   int(n.midi_pitch)) for p2 in sc2.parts for n in p2.notes_tied)])
         ev.oracle += oracle(sd, order, cfg, mf, tracks, pnotes, sc2, tag)
     ev.key = None if n_sound == 0 else "score:%s" % hash_desc(d)
     ev.info = {"parts": len(sd["parts"]), "notes": n_sound}
@@ -1265,21 +1291,19 @@ def oracle(sd, order, cfg, mf, tracks, pnotes, sc2, tag):
                        % (tag, fmt_ms(miss), fmt_ms(extra)))
         else:
             pos = [w for w in want if w[1] > 0]
-            for a in pos:
-                for b in pos:
-                    ka, kb = (a[0], a[1], a[2]), (b[0], b[1], b[2])
-                    ret = {0: (a[3], a[4]) == (b[3], b[4]), 1: a[3] == b[3], 2: True, 3: a[3] == b[3], 4: True,
-                           5: (a[3], a[4]) == (b[3], b[4])}[mode]
-                    if (cell2[ka] == cell2[kb]) != ret:
+            # (cell, group, (part, voice), part, top-level group of the part) per note, looked up once
+            inf = [(cell2[(a[0], a[1], a[2])], group2[(a[0], a[1], a[2])], (a[3], a[4]), a[3], top_of(sd, order[a[3]])) for a in pos]
+            for (ca, ga, pva, pa, ta) in inf:
+                for (cb, gb, pvb, pb, tb) in inf:
+                    ret = (pva == pvb) if mode in (0, 5) else ((pa == pb) if mode in (1, 3) else True)
+                    if (ca == cb) != ret:
                         out.append("grouping(import): [%s] notes of (part, voice) %r and %r come back in %r and %r"
-                                   % (tag, (a[3], a[4]), (b[3], b[4]), cell2[ka], cell2[kb]))
+                                   % (tag, pva, pvb, ca, cb))
                         break
-                    if mode == 1:
-                        gof_a, gof_b = top_of(sd, order[a[3]]), top_of(sd, order[b[3]])
-                        if (group2[ka][0] == group2[kb][0]) != (gof_a == gof_b):
-                            out.append("grouping(import): [%s] mode 1 part groups: parts %d and %d come back in groups %r and %r"
-                                       % (tag, a[3], b[3], group2[ka], group2[kb]))
-                            break
+                    if mode == 1 and (ga[0] == gb[0]) != (ta == tb):
+                        out.append("grouping(import): [%s] mode 1 part groups: parts %d and %d come back in groups %r and %r"
+                                   % (tag, pa, pb, ga, gb))
+                        break
                 else:
                     continue
                 break
